@@ -114,8 +114,14 @@ impl RefScanner {
         let max_ext = cands.iter().map(|c| c.0).max().unwrap();
         let best: Vec<_> = cands.into_iter().filter(|c| c.0 == max_ext).collect();
         let min_prio = best.iter().map(|c| c.1).min().unwrap();
+        // known finding D10: the code resolves ties by the first position of the TOKEN TYPE in the mode, not of the pattern. Where the two rules differ (a pattern shares its
+        // token type with an earlier, non-adjacent one) the outcome of either rule is accepted, so that D10 is not reported again; anything else still is
+        let first_pos = |tt: usize| self.modes[mode].pats.iter().position(|p| p.tt == tt).unwrap();
+        let min_prio_tt = best.iter().map(|c| first_pos(c.2)).min().unwrap();
         // several lengths of the SAME pattern with the same extent are all acceptable (C05 leaves it open)
-        best.into_iter().filter(|c| c.1 == min_prio).map(|c| (c.2, c.3)).collect()
+        let mut out: Vec<(usize, usize)> = best.iter().filter(|c| c.1 == min_prio).map(|c| (c.2, c.3)).collect();
+        for c in best.iter().filter(|c| first_pos(c.2) == min_prio_tt) { if !out.contains(&(c.2, c.3)) { out.push((c.2, c.3)); } }
+        out
     }
     /// next token from byte position pos: (acceptable (tt, start, end) alternatives) or None
     fn next_from(&self, mode: usize, input: &str, pos: usize) -> Option<Vec<(usize, usize, usize)>> {
@@ -1133,6 +1139,11 @@ fn gen_pats(r: &mut Rng, with_la: bool, n: usize, numbering: usize) -> Vec<PatSp
         let j = 1 + r.below(n - 1);
         let i = r.below(j);
         out[j].p = out[i].p.clone();
+    }
+    // one token type on the first and the last of at least three patterns (not adjacent), both without lookahead (lookaheads are stored per token type: known finding D9);
+    // decided from the generator state without drawing from it, so that the other cases of a seed stay what they were
+    if n >= 3 && r.0 % 5 == 0 && out[0].la.is_none() && out[n - 1].la.is_none() {
+        out[n - 1].tt = out[0].tt;
     }
     out
 }
